@@ -30,10 +30,13 @@ from harness import common
 from harness.common import Failure, lean_run
 
 PROP_MODULES = ["ArmiVerif.Props.C18"]
-PARTIAL = ("hex ascii-map round trips are proved only as injectivity of the text-cell -> index maps (full round trip "
-           "by exhaustive-small + generated correspondence); component construction, material composition after "
-           "modifications and thermal expansion of linked dimensions are compared against an independent Python "
-           "evaluation of the document, not proved")
+PARTIAL = ("Cartesian maps: the reader is characterised exactly and the writer is proved sound (what it draws reads back to "
+           "the contents) for non-negative indices - for negative indices the statement is false in the code (finding); hex maps: "
+           "proved = the text-cell -> index maps are injective and the reader keeps every token at its computed index; the hex "
+           "WRITE direction (dimension inference from data, corner truncation) is correspondence-only (exhaustive-small + "
+           "generated) and is where the known findings live; blueprints: stacking, link resolution, placement are proved about the "
+           "model, component construction / materials / thermal expansion of linked dimensions / composition after material "
+           "modifications are compared against an independent Python evaluation of the document, not proved")
 ASSUMPTIONS = [
     "text splitting (str.strip/splitlines/split) and fixed-width formatting of AsciiMap.__str__ are parameters of the "
     "ascii-map model: tokens are non-empty and contain no whitespace",
@@ -242,12 +245,20 @@ class Ascii:
         self.ctx = ctx
         self.req, self.impl, self.cases = [], [], []
 
-    def write(self, kind, contents, tag):
+    def write(self, kind, contents, tag, judge=True):
         ctx = self.ctx
         contents = dict(contents)
         if not contents:
             return
         ans, text, back = impl_write(kind, contents)
+        if not judge:
+            # outside the labels' domain (dash-only labels): model = implementation only, no oracle verdict
+            self.req.append(f"write {kind} " + "[" + ",".join(f"{i}:{j}:{t}" for (i, j), t in contents.items()) + "]")
+            self.impl.append(ans)
+            self.cases.append({"kind": kind, "contents": show_labels(contents), "tag": tag})
+            ctx.case(("w", kind, tuple(sorted(contents.items()))), nontrivial=True)
+            ctx.count(f"ascii write, labels outside the domain ({kind})")
+            return
         self.req.append(f"write {kind} " + "[" + ",".join(f"{i}:{j}:{t}" for (i, j), t in contents.items()) + "]")
         self.impl.append(ans)
         case = {"kind": kind, "contents": show_labels(contents), "tag": tag}
@@ -328,6 +339,11 @@ def run_ascii(ctx):
         for _ in range(ctx.pick(400, 6000)):
             cells = rng.sample(box, rng.randint(3, 9))
             A.write(kind, {c: rng.choice(LABELS) for c in cells}, "box-sampled")
+        # labels that are runs of dashes are outside the domain (the writer's regex takes them for placeholders):
+        # correspondence only
+        for _ in range(ctx.pick(150, 1500)):
+            cells = rng.sample([c for c in box if c[0] >= -1 and c[1] >= -1], rng.randint(1, 6))
+            A.write(kind, {c: rng.choice(["--", "-", "A", "---", "B"]) for c in cells}, "dash-labels", judge=False)
     A.flush("AsciiMap model vs asciimaps (small index sets)")
     # --- G2: complete outlines with every hole pattern (<= 2 rings, 2 labels) and sampled (3 rings)
     for kind in KINDS:
@@ -344,7 +360,8 @@ def run_ascii(ctx):
         for _ in range(ctx.pick(300, 5000)):
             p = rng.choice([0.05, 0.15, 0.3, 0.6])
             A.write(kind, {c: rng.choice(LABELS) for c in cells if rng.random() > p}, "holes-sampled-3")
-    ctx.exhaustive = True
+    ctx.extra["exhaustive_substreams"] = ("index sets of size <= 2 in the 5x5 box for all four classes; every hole pattern with 2 labels of the "
+                                          "outlines with <= 9 cells (1-ring hexagons, 2-ring third core, 2x2 and 3x3 Cartesian); text shapes of <= 3 lines x <= 3 tokens (shapes exhaustive, tokens sampled)")
     A.flush("AsciiMap model vs asciimaps (outlines with holes)")
     # --- G3 / G4: complete maps of 1..N rings, truncated corners, a few holes; both directions
     for kind in KINDS:
